@@ -146,7 +146,7 @@ G("read_demand_active_pdu", impl=r"impl Client", props=["C06", "C12", "C03"], ke
 G("read_synchronize_pdu", impl=r"impl Client", props=["C06", "C12", "C03"], keys=True, ensures=STATE_FRAME + [(None, "share", "final(self).share() == old(self).share()")],
   # rule R15: the data-PDU type that is tested is bound to a local so that the claim below can name it
   body_sub=[(r"if DataPDU::from_pdu\(&pdu\)\?\.pdu_type (!=|==) PDUType2::(\w+) \{", r"let __dp_type = DataPDU::from_pdu(&pdu)?.pdu_type; if __dp_type \1 PDUType2::\2 {")],
-  claims=[(r"Ok\(true\)(?:\s*\})+\s*$", 1, "proof { assert(__dp_type is Pdutype2Synchronize); }", "before", "C12,C03", "expected-pdu-reported-only-for-a-synchronize-pdu"),
+  claims=[(r"(?:return )?Ok\(true\)", 0, "proof { assert(__dp_type is Pdutype2Synchronize); }", "before", "C12,C03", "expected-pdu-reported-only-for-a-synchronize-pdu", r"let __dp_type = "),
           (r"(?:return )?Ok\(true\)", 0, "proof { assert(pdu.pdu_type is PdutypeDatapdu); }", "before", "C12,C03", "expected-pdu-reported-only-for-a-data-pdu")])
 G("read_control_pdu", impl=r"impl Client", props=["C06", "C12", "C03"], keys=True, ensures=STATE_FRAME + [(None, "share", "final(self).share() == old(self).share()")],
   # C12 "advance only on the expected PDU": a control PDU is accepted (Ok(true)) only when its action field is the expected action
@@ -159,7 +159,7 @@ G("read_control_pdu", impl=r"impl Client", props=["C06", "C12", "C03"], keys=Tru
 G("read_font_map_pdu", impl=r"impl Client", props=["C06", "C12", "C03"], keys=True, ensures=STATE_FRAME + [(None, "share", "final(self).share() == old(self).share()")],
   # rule R15: the data-PDU type that is tested is bound to a local so that the claim below can name it
   body_sub=[(r"if DataPDU::from_pdu\(&pdu\)\?\.pdu_type (!=|==) PDUType2::(\w+) \{", r"let __dp_type = DataPDU::from_pdu(&pdu)?.pdu_type; if __dp_type \1 PDUType2::\2 {")],
-  claims=[(r"Ok\(true\)(?:\s*\})+\s*$", 1, "proof { assert(__dp_type is Pdutype2Fontmap); }", "before", "C12,C03", "expected-pdu-reported-only-for-a-font-map-pdu"),
+  claims=[(r"(?:return )?Ok\(true\)", 0, "proof { assert(__dp_type is Pdutype2Fontmap); }", "before", "C12,C03", "expected-pdu-reported-only-for-a-font-map-pdu", r"let __dp_type = "),
           (r"(?:return )?Ok\(true\)", 0, "proof { assert(pdu.pdu_type is PdutypeDatapdu); }", "before", "C12,C03", "expected-pdu-reported-only-for-a-data-pdu")])
 # rule R6: Verus' for-loops do not support `continue`: the loop over the parsed PDUs is spelled as an index loop (increment first, same order, same elements)
 G("read_data_pdu", impl=r"impl Client", props=["C06", "C12", "C11"], keys=True,
